@@ -414,8 +414,7 @@ var headerParamPool = sync.Pool{
 }
 
 // getOffer return valid offer for header negotiation.
-// Do not pass header using utils.UnsafeBytes - this can cause a panic due
-// to the use of utils.ToLowerBytes.
+// The header is only read, parameter names are lower-cased in a copy.
 func getOffer(header []byte, isAccepted func(spec, offer string, specParams headerParams) bool, offers ...string) string {
 	if len(offers) == 0 {
 		return ""
@@ -455,7 +454,8 @@ func getOffer(header []byte, isAccepted func(spec, offer string, specParams head
 						}
 						return false
 					}
-					lowerKey := utils.UnsafeString(utils.ToLowerBytes(key))
+					// the key is a view of the request header: fold a copy, not the header itself
+					lowerKey := utils.ToLower(utils.UnsafeString(key))
 					params[lowerKey] = value
 					return true
 				})
